@@ -20,10 +20,12 @@ SEQ_TOL = Fraction(1, 10 ** 7)
 def rvec(rng, n, scale=1):
     return [Fraction(rng.randint(-8, 8), scale) for _ in range(n)]
 
-def gen_case(ctx, k, P):
+def gen_case(ctx, k, P, force=None):
+    """force = (class, 'x0_overflow'): directed cases - every solver class meets an initial guess whose products overflow"""
     rng = ctx.rng
     par = P > 1 or rng.random() < 0.55
     cls = rng.choice(["parrs", "parrs", "parsa"]) if par else rng.choice(["seqrs", "seqrs", "seqsa"])
+    if force: cls = force[0]; par = cls.startswith("par")
     kind = rng.choice(["graph", "graph", "lap1d_dec", "convdiff", "grid", "tiny", "lap1d", "nonsym_tiny", "tiny_illcond"])
     if kind == "tiny_illcond":
         # coarse already and nearly singular (graph Laplacian + 2^-40..2^-46): the single-level "cycle" is one LU solve whose
@@ -64,6 +66,7 @@ def gen_case(ctx, k, P):
         if all(v == 0 for v in b): b[0] = Fraction(1, 2 ** e)
     else: b = [Fraction(0)] * n; bkind = "zero"
     r = rng.random(); xkind = "x0"
+    if force: r = 0.99
     if r < 0.6: x0 = [Fraction(0)] * n
     elif r < 0.86: x0 = rvec(rng, n)
     elif r < 0.94: x0 = rvec(rng, n, 2 ** 20)
@@ -264,8 +267,11 @@ def run(ctx):
     else:
         cases = []; k = 0
         for P in (1, 2, 3, 4):
-            for _ in range(per_P[P]):
-                cases.append(gen_case(ctx, k, P)); k += 1
+            for q in range(per_P[P]):
+                force = None
+                if P == 1 and q < 24: force = (["seqrs", "seqsa", "parrs", "parsa"][q % 4], "x0_overflow")
+                elif q < 8: force = (["parrs", "parsa"][q % 2], "x0_overflow")
+                cases.append(gen_case(ctx, k, P, force)); k += 1
     import time
     model_lines = []
     for P in (1, 2, 3, 4):
